@@ -211,24 +211,146 @@ func Walk(x []byte, l uint32, exts []*Ext) lib.Res {
 	return b
 }
 
-// Lookup is the expected observation of Lookup(name) when exts are registered:
-// the complete spec of the extension carrying that name, or the pristine answer.
-func Lookup(name string, exts []*Ext) (lib.Res, *Ext) {
-	byID := map[int]*Ext{}
-	for _, e := range exts {
-		byID[e.ID] = e
+// pnode is one step of a node's path from the root of the enlarged tree.
+type pnode struct {
+	builtin lib.Node // built-in node, by (type, extension)
+	ext     *Ext     // or an extension
+}
+
+func builtinPath(name string) ([]pnode, bool) {
+	if name == "" {
+		name = "application/octet-stream"
 	}
-	// A type may be registered more than once on the same parent; the newest
-	// registration sits in front and is the one Lookup reaches first.
-	for i := len(exts) - 1; i >= 0; i-- {
-		e := exts[i]
+	r := lib.LB(name)
+	if r.Nil {
+		return nil, false
+	}
+	var p []pnode
+	for k := len(r.Chain) - 1; k >= 0; k-- {
+		p = append(p, pnode{builtin: lib.Node{Str: lib.Bare(r.Chain[k].Str), Ext: r.Chain[k].Ext}})
+	}
+	return p, true
+}
+
+func extPath(e *Ext, byID map[int]*Ext) ([]pnode, bool) {
+	var tail []pnode
+	cur := e
+	for {
+		tail = append([]pnode{{ext: cur}}, tail...)
+		if cur.ParentExt < 0 {
+			break
+		}
+		p := byID[cur.ParentExt]
+		if p == nil {
+			return nil, false
+		}
+		cur = p
+	}
+	head, ok := builtinPath(cur.Parent)
+	if !ok {
+		return nil, false
+	}
+	return append(head, tail...), true
+}
+
+// before reports whether the node at path a is reached before the node at path
+// b by the depth-first search Lookup performs (a node, then its children in
+// detection order). order gives the registration index of extensions. known is
+// false when the two paths part at two built-in siblings, whose relative order
+// the model does not know.
+func before(a, b []pnode, order map[*Ext]int) (first, known bool) {
+	for i := 0; ; i++ {
+		if i == len(a) {
+			return true, true // a is b or an ancestor of b
+		}
+		if i == len(b) {
+			return false, true
+		}
+		x, y := a[i], b[i]
+		if x.ext == y.ext && x.builtin == y.builtin {
+			continue
+		}
+		switch {
+		case x.ext != nil && y.ext != nil:
+			return order[x.ext] > order[y.ext], true // the newer registration sits in front
+		case x.ext != nil:
+			return true, true // every extension sits in front of the built-in children
+		case y.ext != nil:
+			return false, true
+		}
+		return false, false
+	}
+}
+
+// Candidate is one acceptable answer of Lookup.
+type Candidate struct {
+	Res lib.Res
+	Ext *Ext // nil: a built-in node
+}
+
+// Lookups lists the acceptable observations of Lookup(name) when exts are
+// registered (in that order): the first node, in the order of Lookup's
+// depth-first search, that carries the name as its type or as an alias. Usually
+// one; two or more only when candidates part at built-in siblings.
+func Lookups(name string, exts []*Ext) []Candidate {
+	byID := map[int]*Ext{}
+	order := map[*Ext]int{}
+	for i, e := range exts {
+		byID[e.ID] = e
+		order[e] = i
+	}
+	type cand struct {
+		c    Candidate
+		path []pnode
+	}
+	var cs []cand
+	if b := lib.LB(name); !b.Nil {
+		if p, ok := builtinPath(name); ok {
+			cs = append(cs, cand{Candidate{Res: b}, p})
+		}
+	}
+	for _, e := range exts {
 		for _, nm := range e.Names() {
 			if nm == name {
-				return ChainOf(e, byID), e
+				if p, ok := extPath(e, byID); ok {
+					cs = append(cs, cand{Candidate{Res: ChainOf(e, byID), Ext: e}, p})
+				}
+				break
 			}
 		}
 	}
-	return lib.LB(name), nil
+	if len(cs) == 0 {
+		return []Candidate{{Res: lib.Res{Nil: true}}}
+	}
+	// keep every candidate that no other candidate is known to precede
+	var out []Candidate
+	for i, a := range cs {
+		beaten := false
+		for j, b := range cs {
+			if i == j {
+				continue
+			}
+			if first, known := before(b.path, a.path, order); known && first {
+				beaten = true
+				break
+			}
+		}
+		if !beaten {
+			out = append(out, a.c)
+		}
+	}
+	if len(out) == 0 {
+		for _, c := range cs {
+			out = append(out, c.c)
+		}
+	}
+	return out
+}
+
+// Lookup is the first acceptable observation (see Lookups).
+func Lookup(name string, exts []*Ext) (lib.Res, *Ext) {
+	c := Lookups(name, exts)[0]
+	return c.Res, c.Ext
 }
 
 // ChainOf is what a live extension node shows through its accessors: itself,
